@@ -229,7 +229,8 @@ def c20d(ctx):
     a = [s for s in fm.walk() if isinstance(s, ast.Assign) and unparse(s.targets[0]) in ('tile.timestamp', 'tile.size') and isinstance(s.value, ast.Attribute)]
     ok = len(a) == 2 and len({unparse(s.value.value) for s in a}) == 1 and {s.value.attr for s in a} == {'st_mtime', 'st_size'}
     if ok:
-        src = defs.of(unparse(a[0].value.value))
+        # a `None` sentinel for "file vanished" may be a second binding; the attributes are only read from the stat result
+        src = [d for d in defs.of(unparse(a[0].value.value)) if not (isinstance(d[0], ast.Constant) and d[0].value is None)]
         ok = len(src) == 1 and is_call(src[0][0], 'os.lstat', 'os.stat')
         for s in a:
             ok = ok and {'tile.timestamp': 'st_mtime', 'tile.size': 'st_size'}[unparse(s.targets[0])] == s.value.attr
